@@ -16,19 +16,15 @@ from ..core import Ctx, REPO, enc
 THEOREMS = [
     "Inventory.roundtrip", "Inventory.roundtrip_exact", "Inventory.getLink_roundtrip", "Inventory.file_roundtrip",
     "Inventory.roundtrip_needs_names", "Inventory.generate_needs_rootsOk",
-    "Inventory.parse_total_partial", "Inventory.parse_total_counterexample", "Inventory.indexError_iff",
-    "Inventory.parse_total_fixed", "Inventory.fixed_agrees",
-    "Inventory.good_lines_survive_partial", "Inventory.good_lines_survive_counterexample", "Inventory.good_line_resolves",
+    "Inventory.parse_total", "Inventory.parseLine_total", "Inventory.prioLast_rejected",
+    "Inventory.good_lines_survive", "Inventory.good_line_resolves",
     "Inventory.payload_terminates", "Inventory.stripComments_fuel_irrelevant", "Inventory.stripComments_lines",
-    "Inventory.update_total_partial", "Inventory.update_total_counterexample", "Inventory.update_unusable_reported",
+    "Inventory.update_total", "Inventory.update_spec", "Inventory.update_unusable_reported",
+    # historical, about the parser before /repo commit f721ca9 (parsePartsOld)
+    "Inventory.old_indexError_iff", "Inventory.old_parse_total_counterexample", "Inventory.old_agrees",
+    "Inventory.old_good_lines_survive_counterexample",
 ]
-PARTIAL = {
-    "Inventory.parse_total_partial": "excludes token lists whose priority column (first int-like token at index >= 2) is the last "
-                                     "column (`prioIsLast`): there `parts[prio_idx + 1]` raises IndexError (parse_total_counterexample)",
-    "Inventory.good_lines_survive_partial": "excludes files containing a line whose priority column is last (the IndexError aborts "
-                                            "_parseInventory and every entry of the file is lost: good_lines_survive_counterexample)",
-    "Inventory.update_total_partial": "same exclusion, for SphinxInventory.update",
-}
+PARTIAL: dict = {}
 RULE = ("(a) exhaustive: every line of <=6 space-separated tokens over {a, 1, -1, py:x, std:y, -, ''} through the real "
         "_parseInventoryLine and _parseInventory and through the Lean model, plus random lines over a wider token alphabet "
         "(signs, underscores, whitespace, 4300/4301-digit numbers, non-ASCII, every str.splitlines separator); non-trivial = the "
@@ -52,9 +48,9 @@ ASSUMPTIONS = [
     "fullName, url, visibility propagation and traversal are recomputed by the model.",
 ]
 EXPLANATION = ("Theorems over the model of sphinx.py hold for every object tree / token list / byte string; the model is tied to "
-               "the real writer, reader and to Sphinx's own loader by the three correspondence streams. The full totality "
-               "statements are false of the current code (IndexError when the priority is the last column): they are proved "
-               "under the decidable exclusion, with machine-checked counterexamples, and for the proposed fix.")
+               "the real writer, reader and to Sphinx's own loader by the three correspondence streams. The totality statements "
+               "(parse_total, good_lines_survive, update_total) are proved at full strength for the code after /repo commit f721ca9; "
+               "the pre-fix parser is kept as parsePartsOld with machine-checked counterexamples (old_...).")
 
 BASE = "http://h/doc"
 URL = BASE + "/objects.inv"
